@@ -251,6 +251,22 @@ fn enc_new_t<E: MkEngine, T: RateEncoder<E> + 'static>(
     Ok(Box::new(EncWrap(inner?, std::marker::PhantomData)))
 }
 
+/// Same, through the `Rate::encoder` constructor (documented as the same as `RateEncoder::new`).
+fn enc_new_r<E: MkEngine, R: Rate<E>>(k: usize, r: usize, b: usize, work: Option<EncoderWork>) -> Result<Box<dyn DynEncoder>, Error>
+where
+    R::RateEncoder: 'static,
+{
+    let engine = E::mk();
+    let (inner, stats) = simcore::countalloc::measure(|| R::encoder(k, r, b, engine, work));
+    CTOR_STATS.with(|c| c.set(stats));
+    Ok(Box::new(EncWrap(inner?, std::marker::PhantomData)))
+}
+
+/// Which of the two documented constructors is used: a deterministic function of the configuration.
+fn via_rate(k: usize, r: usize, b: usize) -> bool {
+    (k.wrapping_mul(3) ^ r.wrapping_mul(5) ^ (b / 2)) % 4 == 0
+}
+
 /// Constructs an encoder. `work` is ignored (must be `None`) for `Layer::Rs`.
 pub fn enc_new(
     kind: Kind,
@@ -261,6 +277,9 @@ pub fn enc_new(
 ) -> Result<Box<dyn DynEncoder>, Error> {
     match kind.layer {
         Layer::Rs => Ok(Box::new(ReedSolomonEncoder::new(k, r, b)?)),
+        Layer::Default if via_rate(k, r, b) => with_engine!(kind.engine, E => enc_new_r::<E, DefaultRate<E>>(k, r, b, work)),
+        Layer::High if via_rate(k, r, b) => with_engine!(kind.engine, E => enc_new_r::<E, HighRate<E>>(k, r, b, work)),
+        Layer::Low if via_rate(k, r, b) => with_engine!(kind.engine, E => enc_new_r::<E, LowRate<E>>(k, r, b, work)),
         Layer::Default => {
             with_engine!(kind.engine, E => enc_new_t::<E, DefaultRateEncoder<E>>(k, r, b, work))
         }
@@ -371,6 +390,16 @@ fn dec_new_t<E: MkEngine, T: RateDecoder<E> + 'static>(
     Ok(Box::new(DecWrap(inner?, std::marker::PhantomData)))
 }
 
+fn dec_new_r<E: MkEngine, R: Rate<E>>(k: usize, r: usize, b: usize, work: Option<DecoderWork>) -> Result<Box<dyn DynDecoder>, Error>
+where
+    R::RateDecoder: 'static,
+{
+    let engine = E::mk();
+    let (inner, stats) = simcore::countalloc::measure(|| R::decoder(k, r, b, engine, work));
+    CTOR_STATS.with(|c| c.set(stats));
+    Ok(Box::new(DecWrap(inner?, std::marker::PhantomData)))
+}
+
 pub fn dec_new(
     kind: Kind,
     k: usize,
@@ -380,6 +409,9 @@ pub fn dec_new(
 ) -> Result<Box<dyn DynDecoder>, Error> {
     match kind.layer {
         Layer::Rs => Ok(Box::new(ReedSolomonDecoder::new(k, r, b)?)),
+        Layer::Default if via_rate(k, r, b) => with_engine!(kind.engine, E => dec_new_r::<E, DefaultRate<E>>(k, r, b, work)),
+        Layer::High if via_rate(k, r, b) => with_engine!(kind.engine, E => dec_new_r::<E, HighRate<E>>(k, r, b, work)),
+        Layer::Low if via_rate(k, r, b) => with_engine!(kind.engine, E => dec_new_r::<E, LowRate<E>>(k, r, b, work)),
         Layer::Default => {
             with_engine!(kind.engine, E => dec_new_t::<E, DefaultRateDecoder<E>>(k, r, b, work))
         }
